@@ -337,7 +337,10 @@ static int ex_region(char *loc, int *beg, int *end)
 	}
 	while (*loc) {
 		int end0 = *end;
-		*end = ex_lineno(&loc) + 1;
+		int ln = ex_lineno(&loc);
+		if (ln < -1)		/* unset mark, failed search, negative line */
+			return 1;
+		*end = ln + 1;
 		*beg = naddr++ ? end0 - 1 : *end - 1;
 		if (!naddr++)
 			*beg = *end - 1;
